@@ -30,6 +30,84 @@ FORBIDDEN = re.compile(
 )
 
 
+_LITS = {}
+
+
+def source_literals(repo=None, maxlen=24):
+    """string constants of the library's own source (the fuzzing "dictionary"): values that have a special
+    role somewhere in the code (sentinels, markers, keywords) are the inputs a generator of ordinary data never
+    produces.  Harvested from the checkout under test on every run, so a newly introduced marker is picked up."""
+    import ast
+
+    repo = repo or REPO
+    if repo in _LITS:
+        return _LITS[repo]
+    out = set()
+    d = os.path.join(repo, "n0struct")
+    for f in sorted(os.listdir(d)) if os.path.isdir(d) else []:
+        if not f.endswith(".py"):
+            continue
+        try:
+            tree = ast.parse(open(os.path.join(d, f), encoding="utf-8").read())
+        except Exception:
+            continue
+        doc = set()
+        for n in ast.walk(tree):
+            body = getattr(n, "body", None)
+            if isinstance(body, list) and body and isinstance(body[0], ast.Expr) and isinstance(getattr(body[0], "value", None), ast.Constant):
+                doc.add(id(body[0].value))
+        for n in ast.walk(tree):
+            if isinstance(n, ast.Constant) and isinstance(n.value, str) and id(n) not in doc and 1 <= len(n.value) <= maxlen and "\n" not in n.value:
+                out.add(n.value)
+    _LITS[repo] = sorted(out)
+    return _LITS[repo]
+
+
+_CMP = {}
+
+
+def compared_literals(repo=None, maxlen=24):
+    """the part of the dictionary the code *compares data against*: string constants that are an operand of a
+    comparison (==, !=, in, is), a default of a parameter, or the fallback argument of a .get()/.pop()/getattr
+    call -- the places where a marker value can be confused with user data."""
+    import ast
+
+    repo = repo or REPO
+    if repo in _CMP:
+        return _CMP[repo]
+    out = set()
+
+    def consts(n):
+        for m in ast.walk(n):
+            if isinstance(m, ast.Constant) and isinstance(m.value, str) and 1 <= len(m.value) <= maxlen and "\n" not in m.value:
+                yield m.value
+
+    d = os.path.join(repo, "n0struct")
+    for f in sorted(os.listdir(d)) if os.path.isdir(d) else []:
+        if not f.endswith(".py"):
+            continue
+        try:
+            tree = ast.parse(open(os.path.join(d, f), encoding="utf-8").read())
+        except Exception:
+            continue
+        for n in ast.walk(tree):
+            if isinstance(n, ast.Compare):
+                for side in [n.left] + list(n.comparators):
+                    if isinstance(side, (ast.Constant, ast.Tuple, ast.List, ast.Set)):
+                        out.update(consts(side))
+            elif isinstance(n, (ast.FunctionDef, ast.AsyncFunctionDef, ast.Lambda)):
+                for dflt in list(n.args.defaults) + [x for x in n.args.kw_defaults if x is not None]:
+                    if isinstance(dflt, ast.Constant):
+                        out.update(consts(dflt))
+            elif isinstance(n, ast.Call) and len(n.args) >= 2 and isinstance(n.args[-1], ast.Constant):
+                fn = n.func
+                name = fn.attr if isinstance(fn, ast.Attribute) else getattr(fn, "id", "")
+                if name in ("get", "pop", "getattr", "first", "setdefault"):
+                    out.update(consts(n.args[-1]))
+    _CMP[repo] = sorted(out)
+    return _CMP[repo]
+
+
 class Infra(Exception):
     """infrastructure failure: exit 2, never a VIOLATION"""
 
